@@ -74,3 +74,5 @@ Lemma existsb_ext_in' {A} (f g : A -> bool) l : (forall a, In a l -> f a = g a) 
 Proof. induction l as [|a l IH]; cbn; intros H; auto. rewrite H by auto. rewrite IH; auto. Qed.
 Lemma filter_map_comm {A B} (f : A -> B) (p : B -> bool) l : filter p (map f l) = map f (filter (fun x => p (f x)) l).
 Proof. induction l as [|a l IH]; cbn; auto. destruct (p (f a)); cbn; now rewrite IH. Qed.
+Lemma In_firstn {A} (x : A) n l : In x (firstn n l) -> In x l.
+Proof. revert l; induction n as [|n IH]; intros [|a l] H; cbn in *; try contradiction. destruct H as [->|H]; auto. Qed.
